@@ -550,6 +550,7 @@ func runC08(p *load.Program, r *oblig.Report) {
 	// a batch (hence a request) only holds messages that were assigned to its partition: the message added under index
 	// i is msgs[i] (C01.R5)
 	shareRules(r, "C08", "C08.R7 a request carries only the messages assigned to its partition", func(sub *oblig.Report) { c01RequestIdentity(p, sub) })
+	c08TimerArmedOnce(p, r)
 }
 
 func c08Tables(p *load.Program, r *oblig.Report) {
@@ -1543,7 +1544,6 @@ func c01RetryLoop(p *load.Program, r *oblig.Report) {
 	if nBreaks != 2 {
 		stray = append(stray, fmt.Sprintf("%d break statements (want 2)", nBreaks))
 	}
-	r.Check(len(stray) == 0, rule, "writeBatch → the loop has no other exit and err no other writer", p.Pos(loop.Pos()), "exits: attempts exhausted, success, permanent error", strings.Join(stray, "; "))
 	// after the loop
 	nComplete, nCompletion := 0, 0
 	okComplete, okCompletion := false, false
@@ -1575,6 +1575,7 @@ func c01RetryLoop(p *load.Program, r *oblig.Report) {
 			return true
 		})
 	}
+	r.Check(len(stray) == 0, rule, "writeBatch → the loop has no other exit and err no other writer", p.Pos(loop.Pos()), "exits: attempts exhausted, success, permanent error", strings.Join(stray, "; "))
 	// complete is a top-level statement after the loop (runs exactly once on every path: no return statements in the function)
 	topLevel := false
 	for _, st := range decl.Body.List[loopIdx+1:] {
